@@ -11,6 +11,76 @@ import (
 
 func init() { register("C15", c15) }
 
+// tipsetSource: for a *gpbft.TipSet value, the canonical EC tipset expression X it was built from
+// (Key: X.Key(), Epoch: X.Epoch(), PowerTable: CID for that key); "" when the construction is not of that shape.
+// Follows a call to an in-repo constructor helper, substituting its parameters by the call's arguments.
+func tipsetSource(v ssa.Value, slot string, fn *ssa.Function) (src string, ok bool, why string) {
+	v = deref(v)
+	var subst map[string]string
+	if ex, isEx := v.(*ssa.Extract); isEx {
+		if call, isCall := ex.Tuple.(*ssa.Call); isCall {
+			h := call.Call.StaticCallee()
+			if h == nil || h.Blocks == nil {
+				return "", false, "value comes from " + canon(v)
+			}
+			subst = map[string]string{}
+			for i := range h.Params {
+				if i < len(call.Call.Args) {
+					subst[fmt.Sprintf("$%d", i)] = canon(call.Call.Args[i])
+				}
+			}
+			var allocs []ssa.Value
+			for _, r := range returnsOf(h) {
+				if canon(r.Results[len(r.Results)-1]) == "nil" && ex.Index < len(r.Results) {
+					allocs = append(allocs, r.Results[ex.Index])
+				}
+			}
+			if len(allocs) != 1 {
+				return "", false, "constructor helper has no unique successful result"
+			}
+			v = allocs[0]
+		}
+	}
+	a, isA := v.(*ssa.Alloc)
+	if !isA || !strings.HasSuffix(shortType(a.Type()), "gpbft.TipSet") {
+		return "", false, "not a TipSet construction: " + canon(v)
+	}
+	st := structStores(a)
+	if st["PowerTable"] == nil && slot != "" && fn != nil {
+		// the power table may be filled in through the slot the tipset was stored into: slot.PowerTable = …
+		for _, fs := range fieldStores(fn, false, "TipSet", "PowerTable") {
+			if fs.Path == slot+".PowerTable" {
+				st["PowerTable"] = fs.Store.Val
+			}
+		}
+	}
+	if st["Key"] == nil || st["Epoch"] == nil || st["PowerTable"] == nil {
+		return "", false, "TipSet literal does not set Epoch, Key and PowerTable"
+	}
+	k, e, pt := canon(st["Key"]), canon(st["Epoch"]), canon(st["PowerTable"])
+	if !strings.HasPrefix(k, "iface:TipSet.Key(") || !strings.HasPrefix(e, "iface:TipSet.Epoch(") {
+		return "", false, "Epoch/Key are " + e + " / " + k
+	}
+	x := strings.TrimSuffix(strings.TrimPrefix(k, "iface:TipSet.Key("), ")")
+	if e != "iface:TipSet.Epoch("+x+")" {
+		return "", false, "Epoch and Key come from different tipsets: " + e + " / " + k
+	}
+	self := strings.TrimPrefix(canon(a), "&")
+	okPT := false
+	for _, keyExpr := range []string{k, self + ".Key", "&" + self + ".Key", slot + ".Key"} {
+		if strings.HasPrefix(pt, "f3.gpbftInputs.getPowerTableCIDForTipset(") && strings.HasSuffix(pt, ", "+keyExpr+")#0") {
+			okPT = true
+		}
+	}
+	if !okPT {
+		return "", false, "PowerTable is " + pt + ", not the CID for this tipset's key " + k
+	}
+	for from, to := range subst {
+		x = strings.ReplaceAll(x, from, to)
+	}
+	return x, true, ""
+}
+
 func c15(p *P) {
 	r := p.r
 	r.Explanation = "Static necessary conditions of well-formed proposals and history-determined committees: (R1) the proposal's base is the head finalized by certificate instance−1 (bootstrap tipset at BootstrapEpoch−Finality for the first instance), as linear forms and provenance; (R2) the suffix walk only ever collects the EC head and parents of collected tipsets, ends only when the walked tipset's KEY equals the base's key, and both divergence exits return an empty suffix; (R3) length ≤ min(ChainMaxLen, ChainProposedLength) and the look-back / freshness trims only shorten; (R4) each tipset carries the CID of EC's power table at that tipset (same key feeds lookup, cache and result) and the supplemental data commits to GetCommittee(instance+1); (R5) committee rule as linear forms: bootstrap iff instance < Initial+Lookback, otherwise certificate instance−Lookback, its head's key and that tipset's beacon; (R6) GetCommittee and its in-package callees use only GetTipsetByEpoch/GetTipset/GetPowerTable on the EC backend — never the head, parents or the clock; (R7) the participant truncates and validates the host's chain."
@@ -19,7 +89,7 @@ func c15(p *P) {
 	r.Rule("C15.R1", "base = head finalized by the previous instance (or bootstrap tipset)", 5)
 	r.Rule("C15.R2", "suffix walk: only head and parents; ends on key equality; divergence ⇒ empty suffix", 7)
 	r.Rule("C15.R3", "length bounds and shortening trims", 3)
-	r.Rule("C15.R4", "per-tipset power-table CID; supplemental data commits to the next committee", 6)
+	r.Rule("C15.R4", "per-tipset power-table CID; supplemental data commits to the next committee", 4)
 	r.Rule("C15.R5", "committee look-back rule", 5)
 	r.Rule("C15.R6", "committee is a function of finalized history only", 2)
 	r.Rule("C15.R7", "participant truncates and validates the host chain", 8)
@@ -46,7 +116,12 @@ func c15(p *P) {
 		}
 		gts := callsTo(gp, false, "iface:Backend.GetTipset")
 		if len(gts) == 1 {
-			k := phiEdgeCanons(gts[0].ArgValues()[2])
+			var k []string
+			for _, alt := range phiEdgeCanons(gts[0].ArgValues()[2]) {
+				if alt != "nil" { // error paths of a key helper: the caller returns before using the key
+					k = append(k, alt)
+				}
+			}
 			sort.Strings(k)
 			ok := len(k) == 2 && strings.HasPrefix(k[0], "gpbft.ECChain.Head(certstore.Store.Get(") && strings.HasSuffix(k[0], ".Key") && strings.HasPrefix(k[1], "iface:TipSet.Key(iface:Backend.GetTipsetByEpoch(")
 			r.Check(ok, "C15.R1", "GetProposal: base tipset = head of the previous certificate's chain | bootstrap tipset", p.c.InstrPos(gts[0].Instr), strings.Join(k, " | "), "base key from "+strings.Join(k, " | "))
@@ -56,14 +131,8 @@ func c15(p *P) {
 			r.Check(ok, "C15.R1", "GetProposal: walks from the EC head down to that base", p.c.InstrPos(cs.Instr), cs.Arg(2)+" ← "+cs.Arg(3), "walk between "+cs.Arg(2)+" and "+cs.Arg(3))
 		}
 		for _, cs := range callsTo(gp, false, "gpbft.NewChain") {
-			ok := false
-			if a, isA := cs.ArgValues()[0].(*ssa.Alloc); isA {
-				st := structStores(a)
-				if st["Epoch"] != nil && st["Key"] != nil {
-					ok = strings.HasPrefix(canon(st["Epoch"]), "iface:TipSet.Epoch(iface:Backend.GetTipset(") && strings.HasPrefix(canon(st["Key"]), "iface:TipSet.Key(iface:Backend.GetTipset(")
-				}
-			}
-			r.Check(ok, "C15.R1", "GetProposal: chain starts at the base tipset", p.c.InstrPos(cs.Instr), "NewChain(base{Epoch,Key of baseTs}, suffix…)", "the chain's first tipset is not the base")
+			src, ok, why := tipsetSource(cs.ArgValues()[0], "", gp)
+			r.Check(ok && strings.HasPrefix(src, "iface:Backend.GetTipset("), "C15.R1", "GetProposal: chain starts at the base tipset (epoch, key and power-table CID of baseTs)", p.c.InstrPos(cs.Instr), src, "the chain's first tipset is not built from the base tipset: "+src+" "+why)
 		}
 		// ---- R3
 		var mk *ssa.MakeSlice
@@ -93,40 +162,24 @@ func c15(p *P) {
 		if nSl < 2 {
 			r.Undecided("C15.R3", "GetProposal: trims", fmt.Sprintf("%d trims found (2 confirmed)", nSl))
 		}
-		// ---- R4
+		// ---- R4: every element stored into the suffix is built from the collected tipset of the same index
 		n := 0
-		for _, fs := range fieldStores(gp, false, "TipSet", "PowerTable") {
+		for _, in := range instrsOf(gp) {
+			st, ok := in.(*ssa.Store)
+			if !ok {
+				continue
+			}
+			ia, isIA := st.Addr.(*ssa.IndexAddr)
+			if !isIA || !strings.Contains(shortType(ia.X.Type()), "gpbft.TipSet") {
+				continue
+			}
 			n++
-			v := canon(fs.Store.Val)
-			path := fs.Path
-			ok := strings.HasPrefix(v, "f3.gpbftInputs.getPowerTableCIDForTipset($0, $1, ") && strings.HasSuffix(v, ")#0")
-			if ok {
-				arg := strings.TrimSuffix(strings.TrimPrefix(v, "f3.gpbftInputs.getPowerTableCIDForTipset($0, $1, "), ")#0")
-				// the key looked up is the key of the very tipset being filled
-				owner := strings.TrimSuffix(path, ".PowerTable")
-				ok = arg == owner+".Key" || (strings.HasPrefix(arg, "iface:TipSet.Key(iface:Backend.GetTipset(") && !strings.Contains(owner, "["))
-			}
-			r.Check(ok, "C15.R4", fmt.Sprintf("GetProposal: tipset #%d carries the power-table CID for its own key", n), p.c.InstrPos(fs.Store), v, "power table CID from "+v+" stored into "+path)
+			i := canon(ia.Index)
+			src, okS, why := tipsetSource(st.Val, canon(ia.X)+"["+i+"]", gp)
+			r.Check(okS && strings.HasSuffix(src, "["+i+"]") && strings.Contains(src, "collectChain("), "C15.R4", fmt.Sprintf("GetProposal: suffix[i] = (epoch, key, power-table CID for that key) of collected tipset i (#%d)", n), p.c.InstrPos(st), src, "suffix element built from "+src+" "+why)
 		}
-		if n < 2 {
-			r.Undecided("C15.R4", "GetProposal: power table CIDs", fmt.Sprintf("%d stores found (2 confirmed)", n))
-		}
-		// suffix[i] from collectedChain[i]
-		for _, b := range gp.Blocks {
-			for _, in := range b.Instrs {
-				st, ok := in.(*ssa.Store)
-				if !ok {
-					continue
-				}
-				if a, isA := st.Val.(*ssa.Alloc); isA && strings.HasSuffix(shortType(a.Type()), "gpbft.TipSet") {
-					if ia, isIA := st.Addr.(*ssa.IndexAddr); isIA {
-						fs := structStores(a)
-						i := canon(ia.Index)
-						ok := fs["Epoch"] != nil && fs["Key"] != nil && strings.HasSuffix(canon(fs["Epoch"]), "["+i+"])") && strings.HasSuffix(canon(fs["Key"]), "["+i+"])") && strings.HasPrefix(canon(fs["Epoch"]), "iface:TipSet.Epoch(") && strings.HasPrefix(canon(fs["Key"]), "iface:TipSet.Key(")
-						r.Check(ok, "C15.R4", "GetProposal: suffix[i] = (epoch, key) of collected tipset i", p.c.InstrPos(st), canon(fs["Epoch"]), "suffix element built from "+canon(fs["Epoch"])+" / "+canon(fs["Key"]))
-					}
-				}
-			}
+		if n < 1 {
+			r.Undecided("C15.R4", "GetProposal: suffix construction", "no store into the suffix slice found")
 		}
 		for _, cs := range callsTo(gp, false, "f3.gpbftInputs.GetCommittee") {
 			l := renameLin(linOf(cs.ArgValues()[2]), manifestSyms)
